@@ -32,6 +32,7 @@ type Scenario struct {
 	Plugins      []*Script
 	PluginAPI    bool // --generate-plugin-api
 	SymlinkRoot  bool // the directory holding the Thrift files is reached through a symbolic link
+	PkgPrefix    string // --pkg-prefix as written on the command line (not necessarily in canonical form)
 	RelPaths     int  // 0: absolute paths on the command line; 1: relative to the sandbox; 2: relative to the directory of the Thrift file
 	// C17
 	FailModule int    // index of the file that fails (-1: none)
@@ -194,6 +195,7 @@ func genScenario(o world.Opts) *Scenario {
 	}
 	sc.NoRecurse = simrt.Flip("opt.no-recurse", 0.15)
 	sc.SymlinkRoot = simrt.Flip("layout.symlinked-thrift-dir", 0.1)
+	sc.PkgPrefix = []string{"example.com/gen", "example.com/gen", "example.com/gen/", "./example.com/gen", "example.com//gen"}[simrt.Choice("opt.pkg-prefix", 5)]
 	if simrt.Flip("layout.relative-paths", 0.2) {
 		sc.RelPaths = 1 + simrt.Choice("layout.relative-to", 2)
 		if sc.SymlinkRoot {
@@ -220,6 +222,7 @@ func genScenario(o world.Opts) *Scenario {
 	faultP := []float64{0, 0.08, 0.25}[simrt.Choice("plugins.fault-rate", 3)]
 	for i := 0; i < np; i++ {
 		sc.Plugins = append(sc.Plugins, genScript([]string{"plgalpha", "plgbeta", "plggamma"}[i], faultP, i))
+		sc.Plugins[i].ModSuffix = "/" + sc.Prog.Files[0].RelPath()
 	}
 	if o.Prop == "C17" {
 		if np >= 2 && simrt.Flip("c17.same-plugin-twice", 0.15) {
@@ -441,7 +444,11 @@ func RunOne(cfg simrt.Config, o world.Opts) *world.Result {
 			}
 			defer os.Chdir(saved)
 		}
-		args := []string{"thriftrw", "--out", arg(env.Out), "--pkg-prefix", "example.com/gen"}
+		prefix := sc.PkgPrefix
+		if prefix == "" {
+			prefix = "example.com/gen"
+		}
+		args := []string{"thriftrw", "--out", arg(env.Out), "--pkg-prefix", prefix}
 		if sc.ExplicitRoot {
 			args = append(args, "--thrift-root", arg(filepath.Join(env.Root, filepath.FromSlash(sc.RootRel))))
 		}
@@ -610,7 +617,16 @@ func (g *scriptedGenerator) Generate(req *api.GenerateServiceRequest) (*api.Gene
 	}
 	files := map[string][]byte{}
 	for _, f := range g.ps.Files {
-		files[f.Path] = []byte(f.Content)
+		pth := f.Path
+		if f.Dyn {
+			pth = "no-such-module/" + f.Base
+			for _, m := range req.Modules {
+				if strings.HasSuffix(m.ThriftFilePath, g.ps.ModSuffix) {
+					pth = m.Directory + "/" + f.Base
+				}
+			}
+		}
+		files[pth] = []byte(f.Content)
 	}
 	return &api.GenerateServiceResponse{Files: files}, nil
 }
